@@ -46,7 +46,11 @@ const c17ChainAccts = 4
 
 func genC17Chain(t *rapid.T) C17ChainCase {
 	c := C17ChainCase{}
-	c.MaxGas = rapid.SampledFrom([]int64{2000000, 10000000, 10000000, 40000000, 40000000, 100000000}).Draw(t, "maxgas")
+	c.MaxGas = rapid.SampledFrom([]int64{2000000, 10000000, 10000000, 40000000, 40000000, 100000000, -1}).Draw(t, "maxgas")
+	lim := c.MaxGas
+	if lim < 0 {
+		lim = 40000000 // unlimited blocks: declared gas in the range of a usual limit
+	}
 	c.Elast = rapid.SampledFrom([]uint32{1, 2, 2, 2, 4, 20}).Draw(t, "elast")
 	c.Denom = rapid.SampledFrom([]uint32{1, 2, 8, 8, 8, 50}).Draw(t, "denom")
 	c.BaseFee = rapid.SampledFrom([]string{"1000000000", "1000000000", "7", "123456789123", "1"}).Draw(t, "basefee")
@@ -66,11 +70,11 @@ func genC17Chain(t *rapid.T) C17ChainCase {
 				x.Gas = 200000
 			case 1:
 				// declares far more than it uses
-				x.Gas = uint64(rapid.Int64Range(c.MaxGas/4, c.MaxGas).Draw(t, "gas-big"))
+				x.Gas = uint64(rapid.Int64Range(lim/4, lim).Draw(t, "gas-big"))
 			case 2:
-				x.Gas = uint64(c.MaxGas) / uint64(c.Elast) // the target itself
+				x.Gas = uint64(lim) / uint64(c.Elast) // the target itself (of a limited block)
 			case 3:
-				x.Gas = uint64(c.MaxGas) + uint64(rapid.IntRange(0, 1).Draw(t, "over")) // at / just over the block gas limit
+				x.Gas = uint64(lim) + uint64(rapid.IntRange(0, 1).Draw(t, "over")) // at / just over the block gas limit
 			default:
 				x.Gas = rapid.Uint64Range(21000, 3000000).Draw(t, "gas")
 				if x.Kind != 1 && x.Gas < 90000 {
@@ -206,7 +210,7 @@ func runC17Chain(st *ev.Stats, c C17ChainCase) string {
 			refFigure = nil
 			continue
 		}
-		if lim := big.NewInt(c.MaxGas); used.Cmp(lim) > 0 {
+		if lim := big.NewInt(c.MaxGas); c.MaxGas > 0 && used.Cmp(lim) > 0 {
 			used = lim // the block gas meter saturates at the block gas limit
 		}
 		w := new(big.Int).Mul(wanted, mult.BigInt())
